@@ -694,7 +694,7 @@ def r_mul_wide(name):
         if m.group(2) == 'epu32':
             e = 'AVM_MUL_u64((uint64_t)AVM_L32(a, 2 * i), (uint64_t)AVM_L32(b, 2 * i))'
         else:
-            e = '(uint64_t)((int64_t)(int32_t)AVM_L32(a, 2 * i) * (int64_t)(int32_t)AVM_L32(b, 2 * i))'
+            e = '(uint64_t)AVM_MUL_i64((int64_t)(int32_t)AVM_L32(a, 2 * i), (int64_t)(int32_t)AVM_L32(b, 2 * i))'
         return Model(name, R, [(R, 'a'), (R, 'b')], '  %s r;\n  for (int i = 0; i < %d; i++) r.q[i] = %s;\n  return r;\n' % (R, W // 64, e))
     m = re.match(r'^_mm(256|512)?_maddubs_epi16$', name)
     if m:
